@@ -40,9 +40,19 @@ func (p *Pool) Payload(e Ent) []byte {
 	n := e.Sz * 8
 	if e.Bytes > 0 {
 		n = e.Bytes
+	} else if e.Bytes < 0 {
+		n = 0 // explicit zero-length payload
 	}
 	if n == 0 {
 		return []byte{}
+	}
+	if n < 8 {
+		// too short to carry (idx,cid): bytes derived from the cid; Identify compares candidates
+		b := make([]byte, n)
+		for i := range b {
+			b[i] = byte(e.Cid*(i+3) + i + int(e.Idx))
+		}
+		return b
 	}
 	words := (n + 7) / 8
 	b := make([]byte, words*8)
@@ -99,7 +109,22 @@ func (p *Pool) build(e Ent) *raft.Log {
 func (p *Pool) Identify(idx uint64, l *raft.Log) int {
 	d := l.Data
 	if len(d) < 8 {
-		return -1
+		// short payloads: compare with every entry ever submitted at this index (latest first)
+		p.mu.Lock()
+		defer p.mu.Unlock()
+		best := -1
+		for k, e := range p.byKey {
+			if k[0] != idx {
+				continue
+			}
+			w := p.build(e)
+			if bytes.Equal(w.Data, d) && (len(w.Data) > 0 || len(d) == 0) && e.Cid > best {
+				if !p.Binary || (l.Index == w.Index && l.Term == w.Term) {
+					best = e.Cid
+				}
+			}
+		}
+		return best
 	}
 	gotIdx := uint64(d[1]) | uint64(d[2])<<8 | uint64(d[3])<<16
 	cid := int(binary.LittleEndian.Uint32(d[4:8]))
